@@ -201,7 +201,7 @@ Qed.
 Corollary serializer_top_partial : forall h, ranked h = true -> fwd_free h = true -> scalars_ok h = true ->
   forall r, (r < length h)%nat -> serializer_ok (serialize_top h r).
 Proof.
-  intros h Hr Hff Hs r Hlt. unfold serialize_top, fuel_for. apply serializer_partial; try assumption. lia.
+  intros h Hr Hff Hs r Hlt. unfold serialize_top, fuel_for. apply serializer_partial; try assumption. nia.
 Qed.
 
 (* non-vacuity: a dataclass holding a list, a dict with a None value and a nested dataclass *)
